@@ -243,6 +243,40 @@ func genEntity(t *rapid.T, label string, notes *[]string, forceRole string) stri
 			l := fmt.Sprintf("%sr%de%d", label, i, j)
 			ep := role.eps[rapid.IntRange(0, len(role.eps)-1).Draw(t, l+"el")]
 			fmt.Fprintf(&b, `<md:%s`, ep.el)
+			// attributes with the same local name in ANOTHER namespace, before and / or after the real
+			// ones (prefix declared on the root, or on the element itself)
+			var after string
+			if rapid.IntRange(0, 3).Draw(t, l+"twin") == 0 {
+				*notes = append(*notes, "attr:foreign-namespace-twin")
+				prefix := "ext"
+				if rapid.Bool().Draw(t, l+"twinlocal") {
+					prefix = "x"
+					b.WriteString(` xmlns:x="urn:example:other"`)
+				}
+				n := rapid.IntRange(1, 3).Draw(t, l+"twinn")
+				for k := 0; k < n; k++ {
+					lk := fmt.Sprintf("%stw%d", l, k)
+					var a string
+					switch rapid.IntRange(0, 3).Draw(t, lk+"which") {
+					case 0:
+						a = fmt.Sprintf(` %s:Location="%s"`, prefix, attrEscape(genLocation(t, lk+"loc", notes)))
+					case 1:
+						a = fmt.Sprintf(` %s:ResponseLocation="%s"`, prefix, attrEscape(genLocation(t, lk+"resp", notes)))
+					case 2:
+						a = fmt.Sprintf(` %s:Binding="%s"`, prefix, attrEscape(genBinding(t, lk, notes)))
+					default:
+						a = fmt.Sprintf(` %s:index="%d"`, prefix, rapid.IntRange(0, 9).Draw(t, lk+"idx"))
+					}
+					if strings.Contains(b.String()[strings.LastIndex(b.String(), "<md:"):]+after, strings.SplitN(a, "=", 2)[0]+"=") {
+						continue // the same qualified attribute twice would be ill-formed
+					}
+					if rapid.Bool().Draw(t, lk+"before") {
+						b.WriteString(a)
+					} else {
+						after += a
+					}
+				}
+			}
 			if rapid.IntRange(0, 19).Draw(t, l+"nob") != 0 {
 				fmt.Fprintf(&b, ` Binding="%s"`, attrEscape(genBinding(t, l, notes)))
 			} else {
@@ -263,6 +297,7 @@ func genEntity(t *rapid.T, label string, notes *[]string, forceRole string) stri
 					b.WriteString(` isDefault="true"`)
 				}
 			}
+			b.WriteString(after)
 			b.WriteString(`/>`)
 		}
 		fmt.Fprintf(&b, `</md:%s>`, role.name)
@@ -271,7 +306,7 @@ func genEntity(t *rapid.T, label string, notes *[]string, forceRole string) stri
 	return b.String()
 }
 
-const mdNS = ` xmlns:md="urn:oasis:names:tc:SAML:2.0:metadata"`
+const mdNS = ` xmlns:md="urn:oasis:names:tc:SAML:2.0:metadata" xmlns:ext="urn:example:extension"`
 
 func genMetadata(t *rapid.T) Case {
 	c := Case{Kind: "metadata"}
@@ -954,9 +989,56 @@ func enumMetadataGrid(_ string, emit func(Case)) {
 	}
 }
 
+// enumForeignTwins: every endpoint-bearing element x standard / unknown binding x a foreign-namespace
+// attribute with the local name Location / ResponseLocation / Binding / index placed before or after
+// the real attribute, hostile value in the twin or in the real one, prefix declared on the root or on
+// the element.  Whatever ends up in the parsed value must satisfy the predicate.
+func enumForeignTwins(_ string, emit func(Case)) {
+	good, bad := "https://ok.example/ep", []string{"javascript:alert(1)", "data:text/html,x", "/relative"}
+	for _, role := range roles {
+		for _, ep := range role.eps {
+			for _, binding := range []string{saml.HTTPPostBinding, saml.HTTPRedirectBinding, "urn:example:binding"} {
+				for _, h := range bad {
+					for _, decl := range []string{"", ` xmlns:x="urn:example:other"`} {
+						prefix := "ext"
+						if decl != "" {
+							prefix = "x"
+						}
+						idx := ""
+						if ep.indexed {
+							idx = ` index="1"`
+						}
+						variants := []string{
+							// Location twins
+							fmt.Sprintf(` Binding="%s" Location="%s" %s:Location="%s"`, binding, good, prefix, attrEscape(h)),
+							fmt.Sprintf(` Binding="%s" %s:Location="%s" Location="%s"`, binding, prefix, attrEscape(h), good),
+							fmt.Sprintf(` Binding="%s" Location="%s" %s:Location="%s"`, binding, attrEscape(h), prefix, good),
+							fmt.Sprintf(` Binding="%s" %s:Location="%s" Location="%s"`, binding, prefix, good, attrEscape(h)),
+							// ResponseLocation twins
+							fmt.Sprintf(` Binding="%s" Location="%s" ResponseLocation="%s" %s:ResponseLocation="%s"`, binding, good, good, prefix, attrEscape(h)),
+							fmt.Sprintf(` Binding="%s" Location="%s" %s:ResponseLocation="%s" ResponseLocation="%s"`, binding, good, prefix, attrEscape(h), good),
+							fmt.Sprintf(` Binding="%s" Location="%s" %s:ResponseLocation="%s"`, binding, good, prefix, attrEscape(h)),
+							// Binding twins: a standard and an unknown binding around a hostile location
+							fmt.Sprintf(` Binding="%s" %s:Binding="urn:example:binding" Location="%s"`, binding, prefix, attrEscape(h)),
+							fmt.Sprintf(` %s:Binding="urn:example:binding" Binding="%s" Location="%s"`, prefix, binding, attrEscape(h)),
+							fmt.Sprintf(` Binding="urn:example:binding" %s:Binding="%s" Location="%s"`, prefix, binding, attrEscape(h)),
+							// index twin
+							fmt.Sprintf(` Binding="%s" Location="%s" %s:index="7" %s:Location="%s"`, binding, good, prefix, prefix, attrEscape(h)),
+						}
+						for _, v := range variants {
+							e := fmt.Sprintf(`<md:EntityDescriptor entityID="https://e.example/metadata"><md:%s protocolSupportEnumeration="urn:oasis:names:tc:SAML:2.0:protocol"><md:%s%s%s%s/></md:%s></md:EntityDescriptor>`, role.name, ep.el, decl, v, idx, role.name)
+							emit(Case{Kind: "metadata", Doc: strings.Replace(e, `<md:EntityDescriptor`, `<md:EntityDescriptor`+mdNS, 1), Notes: []string{"attr:foreign-namespace-twin", "loc:not-http"}})
+						}
+					}
+				}
+			}
+		}
+	}
+}
+
 var prop = &pbt.Prop[Case]{
 	ID: "C14",
-	Rule: "cases: (forms) hostile strings - HTML/JS/template metacharacters, quotes, NUL and other controls, U+2028/2029, script-bearing and malformed URLs - in every interpolated slot (action URL, relay state, message content, login URL) of the SP AuthnRequest/LogoutRequest/LogoutResponse POST forms, the samlsp middleware POST page, the IdP response form and the samlidp login form (both routes); (metadata) generated documents with every endpoint-bearing element of every role descriptor x known / other-SAML / unknown / absent bindings x Location and ResponseLocation over scheme classes, as EntityDescriptor and EntitiesDescriptor, through xml.Unmarshal, samlsp.ParseMetadata (+ the SP's POST form and redirect built from the result) and samlidp PUT /services (stored, registered and re-served copies). " +
+	Rule: "cases: (forms) hostile strings - HTML/JS/template metacharacters, quotes, NUL and other controls, U+2028/2029, script-bearing and malformed URLs - in every interpolated slot (action URL, relay state, message content, login URL) of the SP AuthnRequest/LogoutRequest/LogoutResponse POST forms, the samlsp middleware POST page, the IdP response form and the samlidp login form (both routes); (metadata) generated documents with every endpoint-bearing element of every role descriptor x known / other-SAML / unknown / absent bindings x Location and ResponseLocation over scheme classes x attributes with the same local name (Location, ResponseLocation, Binding, index) in another namespace before / after the real ones, as EntityDescriptor and EntitiesDescriptor, through xml.Unmarshal, samlsp.ParseMetadata (+ the SP's POST form and redirect built from the result) and samlidp PUT /services (stored, registered and re-served copies). " +
 		"oracle: the DOM skeleton (x/net/html) of each page equals the skeleton of the same page made with benign strings; RelayState / payload / toast read back exactly (modulo the HTML parser's CR->LF and NUL->U+FFFD); the action is the given URL, its percent-normalised form or html/template's #ZgotmplZ and never has a scheme other than http/https/none (mailto: not judged); after a successful metadata parse every location under a standard binding is a literal http(s) URL without control characters, under an unknown binding is empty; a failed parse is always acceptable. " +
 		"non-trivial: forms - a slot string contains one of < > \" ' & {{ }} or a control / line-separator character; metadata - some location is not a plain http(s) URL or some binding is not a standard one. distinct: sha256 of the JSON case.",
 	Gen:   gen,
@@ -965,6 +1047,7 @@ var prop = &pbt.Prop[Case]{
 	Enums: []pbt.Enum[Case]{
 		{Name: "listed-hostile-strings-x-slots-x-forms", Each: enumFormStrings},
 		{Name: "metadata-element-x-binding-x-scheme-grid", Each: enumMetadataGrid},
+		{Name: "foreign-namespace-attribute-twins", Each: enumForeignTwins},
 	},
 	Assumptions: []string{
 		"strings are valid UTF-8; message content of the SP / IdP forms is XML-1.0-representable (it is serialised into the message before encoding)",
